@@ -2,6 +2,7 @@ package storage
 
 import (
 	"database/sql"
+	"errors"
 	"fmt"
 	"log"
 	"strings"
@@ -306,6 +307,55 @@ func (s *Storage) CheckQuota(username string, messageSize int64, quotaLimit int6
 	if currentUsage+messageSize > quotaLimit {
 		return fmt.Errorf("quota exceeded: current=%d, limit=%d, message=%d",
 			currentUsage, quotaLimit, messageSize)
+	}
+
+	return nil
+}
+
+// ErrQuotaExceeded is returned by CheckRecipientQuota when the recipient's mailbox has no room for the message
+var ErrQuotaExceeded = errors.New("quota exceeded")
+
+// CheckRecipientQuota checks if the mailbox that DeliverMessage files a message for
+// recipient into has room for messageSize more bytes: the role mailbox if the address
+// is one, otherwise the mailbox of that user in that domain. A user that does not
+// exist yet has an empty mailbox (nothing is created here).
+func (s *Storage) CheckRecipientQuota(recipient string, messageSize int64, quotaLimit int64) error {
+	sharedDB := s.dbManager.GetSharedDB()
+
+	var targetDB *sql.DB
+	var targetUserID int64 // Role mailboxes use userID 0
+	if roleMailboxID, _, roleErr := db.GetRoleMailboxByEmail(sharedDB, recipient); roleErr == nil {
+		roleDB, err := s.dbManager.GetRoleMailboxDB(roleMailboxID)
+		if err != nil {
+			return fmt.Errorf("failed to get role mailbox database: %w", err)
+		}
+		targetDB = roleDB
+	} else if userID, userErr := db.GetUserByEmail(sharedDB, recipient); userErr == nil {
+		userDB, err := s.dbManager.GetUserDB(userID)
+		if err != nil {
+			return fmt.Errorf("failed to get user database: %w", err)
+		}
+		targetDB, targetUserID = userDB, userID
+	}
+
+	var currentUsage int64
+	if targetDB != nil {
+		// Total size of all messages in all mailboxes of this store
+		err := targetDB.QueryRow(`
+			SELECT COALESCE(SUM(m.size_bytes), 0)
+			FROM messages m
+			JOIN message_mailbox mm ON m.id = mm.message_id
+			JOIN mailboxes mb ON mm.mailbox_id = mb.id
+			WHERE mb.user_id = ?
+		`, targetUserID).Scan(&currentUsage)
+		if err != nil {
+			return fmt.Errorf("failed to calculate quota: %w", err)
+		}
+	}
+
+	if currentUsage+messageSize > quotaLimit {
+		return fmt.Errorf("%w: current=%d, limit=%d, message=%d",
+			ErrQuotaExceeded, currentUsage, quotaLimit, messageSize)
 	}
 
 	return nil
